@@ -140,10 +140,10 @@ impl State for FileState {
                 .with_error_context(|error| format!("{FILE_STATE_PARSE_ERROR} index. {error}"))
                 .map_err(|_| IggyError::InvalidNumberEncoding)?;
             total_size += 8;
-            if entries_count > 0 && index != current_index + 1 {
+            if (entries_count > 0 && index != current_index + 1) || (entries_count == 0 && index != 0) {
                 error!(
                     "State file is corrupted, expected index: {}, got: {}",
-                    current_index + 1,
+                    if entries_count == 0 { 0 } else { current_index + 1 },
                     index
                 );
                 return Err(IggyError::StateFileCorrupted);
